@@ -348,7 +348,7 @@ pub fn run(tier: Tier) -> i32 {
                 rep.sample(json!({"voices": nv, "history": [{"quantity": 0, "weights": [0.5, 0.6], "valid": false}, {"quantity": 1, "weights": [1.0, 0.0], "valid": true}]}));
             }
         }
-        if counts[0] != counts[1] {
+        if rep.violation_count() == 0 && counts[0] != counts[1] {
             crate::elog!("MACHINERY: state counts differ between thread counts: {:?}", counts);
             return 2;
         }
